@@ -169,6 +169,8 @@ func disabledMatrix(r *ev.Run, kind storeKind, ks ksrig.FullKeyStore) {
 				case problem != "":
 					r.Violation(fmt.Sprintf("format: %s: layer=%s type=%s", problem, layerNames[l], typeName(typ)), det)
 				default:
+					det["token"] = out.full()
+					checkTokenFormat(r, l, v, out, det)
 					toks = append(toks, dmTok{tok: out, val: v, ctx: ctx, consistent: consistent, via: l})
 				}
 			}
